@@ -64,7 +64,10 @@ Print Assumptions C14_validated_stays.
 
 (** The loss-detection timer: cancelled whenever it is recomputed while limited; and in
     histories of arrivals, gated sends and expiries, an unblocked server with Initial or
-    Handshake packets outstanding always has it armed (no handshake deadlock). *)
+    Handshake packets outstanding always has it armed.
+    NOTE (audit): [timed_op] excludes [Other], the slice model's stand-in for ACK processing (an arbitrary oracle on the
+    timer sub-state, so nothing can be said after it): this theorem covers histories WITHOUT ACKs.  With ACKs, loss
+    timers and space drops the statement is C06_timer_armed on the full handler model (coq/Props/C06.v). *)
 Theorem C14_timer_cancelled_when_limited : forall s,
   limited s = true -> alarm (tm (setTimer s)) = 0.
 Proof. exact timer_cancelled_when_limited. Qed.
@@ -135,6 +138,18 @@ Theorem C14_close_gated : forall c size ops,
 Proof. exact close_gated. Qed.
 Print Assumptions C14_close_gated.
 
+(** The hypothesis [Close false] of the two theorems above is needed: the close decision trusts
+    Conn.handshakeComplete; with that flag set while the handler's own flag still says "unvalidated" the
+    CONNECTION_CLOSE is written whatever the counters say (5500 sent against a bound of 3700 here).  In the code
+    the flag is set while the client's Finished is processed, shortly before ReceivedPacket(Handshake). *)
+Example C14_close_hypothesis_needed :
+  let '(c, last) := crun_g (cinit false 200000000, 0)
+        [ SphOp (Recv 1200 1); SphOp (TrySend 2 [(amp_EncInitial, 1200, true)]); SphOp (TrySend 2 [(amp_EncHandshake, 1200, true)]);
+          SphOp (TrySend 2 [(amp_EncHandshake, 3000, true)]); Close true 100 ] in
+  validated (sph c) = false /\ wireSent c = 5500 /\ 3 * wireRcvd c + last = 3700.
+Proof. exact close_with_handshake_flag_unbounded. Qed.
+Print Assumptions C14_close_hypothesis_needed.
+
 (** Regression: the witness of the former finding ampconn/close-ungated (2x1200 B received,
     6x1280 B sent, application close with a 106 B CONNECTION_CLOSE, 37 B datagrams afterwards)
     now ends at 7680 bytes; under the limit the close is written once and retransmitted for the
@@ -185,7 +200,7 @@ Proof. exact replay_witness_repaired. Qed.
 Print Assumptions C14_replay_regression.
 
 (** The property at the wire.  [wire_ok] is the predicate an observer between client and server checks
-    (every datagram towards an unvalidated address starts at or under 3x what arrived); it is what the
+    (a datagram towards an unvalidated address packed after a SendMode check starts strictly under 3x what arrived, an ungated one — CONNECTION_CLOSE, its retransmission, a Retry — at or under it); it is what the
     `ampconn` unit replays on the traces of real connections.  Every wire trace of every history of the
     connection-level model (gated sends, close, retransmissions of the close) satisfies it. *)
 Theorem C14_wire_trace_ok : forall validated0 pto ops,
@@ -194,13 +209,20 @@ Proof. exact wire_trace_ok. Qed.
 Print Assumptions C14_wire_trace_ok.
 
 Example C14_wire_ok_nonvacuous :
-  wire_ok (WS 0 0 false) [WRecv 1200 false; WRecv 1200 false; WSend 1280; WSend 1280; WSend 1280; WSend 1280; WSend 1280; WSend 1280; WSend 106] = false /\
+  wire_ok (WS 0 0 false) [WRecv 1200 false; WRecv 1200 false; WSend 1280; WSend 1280; WSend 1280; WSend 1280; WSend 1280; WSend 1280; WSendU 106] = false /\
   wire_ok (WS 0 0 false) [WRecv 1200 false; WRecv 1200 false; WSend 1280; WSend 1280; WSend 1280; WSend 1280; WSend 1280; WSend 1280; WRecv 1200 true; WSend 1280] = true /\
   ctrace_ev (cinit false 200000000) close_example_ops =
     [WRecv 1200 false; WRecv 1200 false; WSend 1280; WSend 1280; WSend 1280; WSend 1280; WSend 1280; WSend 1280;
      WRecv 37 false; WRecv 37 false; WRecv 37 false; WRecv 37 false].
 Proof. exact wire_ok_rejects. Qed.
 Print Assumptions C14_wire_ok_nonvacuous.
+
+Example C14_wire_ok_strict :
+  wire_ok (WS 0 0 false) [WRecv 100 false; WSend 300; WSend 5000] = false /\
+  wire_ok (WS 0 0 false) [WRecv 100 false; WSend 300; WSendU 50] = true /\
+  wire_ok (WS 0 0 false) [WSend 5000] = false.
+Proof. exact wire_ok_strict. Qed.
+Print Assumptions C14_wire_ok_strict.
 
 (** Non-vacuity: a well-formed history that reaches the limit, is blocked, is unblocked by
     a 40-byte datagram, overshoots by one datagram, and is finally validated. *)
@@ -299,7 +321,12 @@ Print Assumptions C14_issued_token_validates.
 (** * (c) Forgery: truncated, bit-flipped, foreign-key tokens are absent or invalid *)
 
 (** Under ideal ciphertext integrity, a byte string that decodes to a token is, byte for
-    byte, nonce ++ seal of a plaintext the key holder sealed ... *)
+    byte, nonce ++ seal of a plaintext the key holder sealed ...
+    NOTE (audit): the three forgery theorems are short consequences of the assumption record [protector_ideal]
+    (int_ctxt, key_sep) plus DecodeToken's framing (length check, nonce split); that a given truncation or bit flip
+    of an issued token is not itself a sealed token is NOT derived here — it is part of what int_ctxt idealises
+    (AES-GCM integrity) and is carried on the code by the token unit's monitors (every single-bit flip and every
+    truncation of sample tokens, foreign key). *)
 Theorem C14_token_forgery :
   forall (K : Type) (prot_seal : K -> list Z -> list Z -> list Z)
          (prot_open : K -> list Z -> list Z -> option (list Z))
